@@ -192,6 +192,13 @@ def reflection(ctx, rng, idx):
     cfl = float(rng.uniform(0.1, 0.4) if not implicit else rng.uniform(0.2, 1.5))
     nstep = int(rng.integers(1, 9 if not implicit else 4))
     dirs = {"dtlocal": True} if rng.random() < 0.25 else {}        # a quarter of the twins run with one time step per cell
+    if dirs:
+        # ... when the cell time steps are of comparable size: a Burgers cell with u ~ 0 gets a step thousands of times longer than its
+        # neighbours, the run blows up and round-off differences between twins are amplified without bound (thorough-tier witness)
+        with probes.quiet():
+            dtc_ = np.asarray(disc.calc_timestep(f, 1.0), float)
+        if not (np.all(np.isfinite(dtc_)) and np.max(dtc_) <= 30.0 * np.min(dtc_)):
+            dirs = {}
     ctx.describe(integrator=iname, cfl=cfl, nstep=nstep, directives=dirs, scheme_object_shared_with_twin=share, **spec.desc())
     r1 = disc.rhs(f); r2 = unmirror(disc2.rhs(f2), spec.mname)
     if not (_finite(r1) and _finite(r2)):
@@ -264,6 +271,13 @@ def units(ctx, rng, idx):
     cfl = float(rng.uniform(0.1, 0.4) if not implicit else rng.uniform(0.2, 1.5))
     nstep = int(rng.integers(1, 9 if not implicit else 4))
     dirs = {"dtlocal": True} if rng.random() < 0.25 else {}        # a quarter of the twins run with one time step per cell
+    if dirs:
+        # ... when the cell time steps are of comparable size: a Burgers cell with u ~ 0 gets a step thousands of times longer than its
+        # neighbours, the run blows up and round-off differences between twins are amplified without bound (thorough-tier witness)
+        with probes.quiet():
+            dtc_ = np.asarray(disc.calc_timestep(f, 1.0), float)
+        if not (np.all(np.isfinite(dtc_)) and np.max(dtc_) <= 30.0 * np.min(dtc_)):
+            dirs = {}
     ctx.describe(integrator=iname, cfl=cfl, nstep=nstep, scale_density=a, scale_velocity=b, scale_length=l, scale_section_area=sa, directives=dirs, **spec.desc())
     r1 = disc.rhs(f); r2 = [x / sc for x, sc in zip(disc2.rhs(f2), rs)]
     if not (_finite(r1) and _finite(r2)):
@@ -285,7 +299,7 @@ def units(ctx, rng, idx):
     else:
         for i in range(model.neq):
             # arbitrary (non power-of-two) length factors round every face position anew: the width of a thin cell changes by ulp(x)/dx_min
-            ctx.close("units:rhs-tol", np.max(np.abs(r1[i] - r2[i])) * dxmin / fs[i], (1e-8 if reg else 1e-11) + 16 * np.finfo(float).eps * float(np.max(np.abs(mesh.xf))) / dxmin, "units/rhs-not-rescaled/%s/%s" % (tag, bkey),
+            ctx.close("units:rhs-tol", np.max(np.abs(r1[i] - r2[i])) * dxmin / fs[i], (1e-8 if reg else 1e-10) + 16 * np.finfo(float).eps * float(np.max(np.abs(mesh.xf))) / dxmin, "units/rhs-not-rescaled/%s/%s" % (tag, bkey),
                       {"eq": i, "scales": [a, b, l]}, cls="units:tolerance")
     try:
         S1 = gen.integ(iname)(mesh, disc)
